@@ -194,7 +194,7 @@ func semLike(t *rapid.T, l string, o semOpts) string {
 		sb.WriteString("-" + p)
 	}
 	if !o.noBuild && Chance(t, l+"B", 1, 5) {
-		b := Pick(t, l+"b", "build", "1", "b.1", "001", "exp.sha.5114f85", "-", "a-b")
+		b := Pick(t, l+"b", "build", "1", "b.1", "001", "exp.sha.5114f85", "-", "a-b", "incompatible")
 		if o.lowerOnly {
 			b = strings.ToLower(b)
 		}
